@@ -82,6 +82,14 @@ func (e *Error) AddContext(c Cont, depth int) *Error {
 			if _, ok := c.(*LuaCont); ok {
 				break
 			}
+			// A Termination stands for its parent in the chain (its DebugInfo
+			// is the parent's and its Parent() skips it): if that parent is a
+			// Lua continuation, it is the one running the failing operation.
+			if t, ok := c.(*Termination); ok {
+				if _, ok := t.parent.(*LuaCont); ok {
+					break
+				}
+			}
 			c = c.Parent()
 		}
 	}
